@@ -281,7 +281,13 @@ func (s *c14State) Next() (SyncState, error) {
 
 // ---------------------------------------------------------------- execution
 
+type c14QPoint struct {
+	h     uint64
+	modes []int32
+}
+
 type c14Inj struct {
+	Q      int    `json:"after_quiescent_point"`
 	ID     int    `json:"id"`
 	How    string `json:"how"` // quiescent | initiate | racing
 	H      uint64 `json:"h"`
@@ -302,12 +308,44 @@ type c14Exec struct {
 	bursts  int64
 	races   int64
 	steps   []string
+	qlog    []c14QPoint
+}
+
+// notePoint records a quiescent point: the height and, per member, whether it
+// is parked in its receive loop (everything handed so far has been received).
+func (x *c14Exec) notePoint() {
+	q := c14QPoint{h: x.clk.Height()}
+	for _, m := range x.members {
+		md := int32(-1)
+		if atomic.LoadInt32(&m.started) == 1 && atomic.LoadInt32(&m.done) == 0 {
+			md = atomic.LoadInt32(&m.bc.mode)
+		}
+		q.modes = append(q.modes, md)
+	}
+	x.mu.Lock()
+	x.qlog = append(x.qlog, q)
+	x.mu.Unlock()
+}
+
+// drainedIn returns the state in which member m is first seen parked in its
+// receive loop at a quiescent point after point q; -1 if never.
+func (x *c14Exec) drainedIn(sched *c14Sched, m, q int) int {
+	for j := q + 1; j < len(x.qlog); j++ {
+		if x.qlog[j].modes[m] == c14ModeSel {
+			k, ph := sched.at(x.qlog[j].h)
+			if ph != 2 {
+				return -1
+			}
+			return k
+		}
+	}
+	return -1
 }
 
 func (x *c14Exec) newInj(how string, member, k int) *c14Inj {
 	x.mu.Lock()
 	x.nextID++
-	in := &c14Inj{ID: x.nextID, How: how, H: x.clk.Height(), Member: member, K: k, Handed: make([]int, len(x.members))}
+	in := &c14Inj{Q: len(x.qlog) - 1, ID: x.nextID, How: how, H: x.clk.Height(), Member: member, K: k, Handed: make([]int, len(x.members))}
 	x.inj = append(x.inj, in)
 	x.mu.Unlock()
 	return in
@@ -409,6 +447,7 @@ func (x *c14Exec) run(rng *rand.Rand) bool {
 		if !x.waitQuiescent(deadline) {
 			return false
 		}
+		x.notePoint()
 		live, unstarted := x.liveCount()
 		if live == 0 {
 			if unstarted == 0 {
@@ -462,6 +501,7 @@ func (x *c14Exec) run(rng *rand.Rand) bool {
 			if !x.waitQuiescent(deadline) {
 				return false
 			}
+			x.notePoint()
 			in.H2 = x.clk.Height()
 			x.step(fmt.Sprintf("race%d@%d+%d", in.ID, in.H, n))
 		case u >= x.c.PInj+x.c.PRace && u < x.c.PInj+x.c.PRace+x.c.PBurst:
@@ -677,10 +717,22 @@ func (x *c14Exec) check(deterministic bool) {
 				continue
 			}
 			lo, hi, must := 0, 0, true
+			// upper bound: the state in which the machine is known to have
+			// drained its buffer. With blocks arriving only when the machine
+			// is parked that is the first state whose end-of-window waiter was
+			// still in the future when registered; otherwise (bursts, other
+			// members moving the clock) the first later quiescent point at
+			// which the member sits in its receive loop.
+			drained := func(k int) int {
+				if deterministic {
+					return c14FirstParked(waits, k)
+				}
+				return x.drainedIn(&sched, m.idx, in.Q)
+			}
 			switch in.How {
 			case "initiate":
 				lo = in.K
-				hi = c14FirstParked(waits, lo)
+				hi = drained(lo)
 			case "quiescent":
 				kk, ph := sched.at(in.H)
 				lo = kk
@@ -689,19 +741,12 @@ func (x *c14Exec) check(deterministic bool) {
 				} else if ph == 3 {
 					hi = -1
 				} else {
-					hi = c14FirstParked(waits, lo)
+					hi = drained(lo)
 				}
 			case "racing":
 				kk, _ := sched.at(in.H)
 				lo = kk
-				k2, ph2 := sched.at(in.H2)
-				if ph2 == 2 {
-					hi = k2
-				} else if ph2 == 3 {
-					hi = -1
-				} else {
-					hi = c14FirstParked(waits, k2)
-				}
+				hi = x.drainedIn(&sched, m.idx, in.Q)
 			}
 			if hi < 0 {
 				hi, must = n-1, false
